@@ -59,6 +59,10 @@ def search(path, n):
             c.post(g2, res, args, kwargs)
         except Reject:
             continue
+        except NotImplementedError:
+            # the contract has no concrete mode for this clause (symbolic-only harness): nothing can be replayed
+            print('replay-search: contract cannot be run natively (no concrete mode)')
+            return 0
         except Exception as e:
             if isinstance(e, tuple(c.expect_raises)):
                 continue
@@ -114,6 +118,9 @@ def main(path):
     except Reject as e:
         print('replay: witness cannot be replayed (%s)' % e)
         return 2
+    except NotImplementedError:
+        print('replay: contract cannot be run natively (no concrete mode)')
+        return 2
     except Exception as e:
         if isinstance(e, tuple(c.expect_raises)):
             print('replay: listed exception raised natively: %r' % e)
@@ -124,6 +131,9 @@ def main(path):
     try:
         c.post(g, res, args, kwargs)
     except Reject:
+        return 2
+    except NotImplementedError:
+        print('replay: contract clauses cannot be evaluated natively (no concrete mode)')
         return 2
     if g.failures:
         for nm, d in g.failures[:10]:
